@@ -12,16 +12,29 @@ CFG = dict(
          "dispatch and all three host dispatch entry points with/without default chain; ~1/12 boundary cases (empty name, "
          "name ending in the wildcard byte). Probes per case: every name, every proper prefix, one-char extensions, "
          "last-char changes, workload prefixes, unrelated names, each with a decoy on the other direction. "
-         "non-trivial = valid stream and >=2 distinct names; distinct by (renderer, config, kind, sorted names)",
+         "non-trivial = valid stream and >=2 distinct names; distinct by (renderer, config, kind, sorted names). "
+         "PART 2 (1/7 of the cases, tag part:maps-sync): histories of 3-8 rounds on the REAL nftables.NftablesTable+Maps over the "
+         "package's fake nft: per round at most one AddOrReplaceMap per dispatch map (members = real DispatchMappings of a random "
+         "subset of 6 interfaces, duplicates included) then Apply() under a scripted failure schedule (per transaction: fail?, per "
+         "resync: ListAll fails?, element listings fail?; shapes: healthy, write failures only, outage of 4-8 failed writes with "
+         "failing reads, total outage (Apply gives up), random mix); observed after every Apply: gave up?, number of transactions "
+         "and resyncs, the fake kernel's dispatch maps; non-trivial = a table recreate or a failed element listing happened",
     trusted=["Coq 8.16.1 kernel + vm_compute",
              "abstract netfilter semantics coq/theories/C10/Nf.v (exact / trailing-wildcard interface match, goto/jump/return, "
              "verdict-map lookup then fall through) stands for the kernel's",
              "hand-written model coq/theories/C10/Model.v tied to felix/rules/dispatch.go by this correspondence run",
+             "hand-written model coq/theories/C10/MapsModel.v (Maps + Apply/retry/recreate loop + abstract kernel table) tied to "
+             "felix/nftables/maps.go and table.go by the part-2 correspondence run (kernel maps, transaction and resync counts per Apply)",
+             "in-package test driver harness/C10/shims/felix/nftables/zz_verif_c10_test.go and the package's fake nft (fake_test.go, knftables.Fake)",
              "Go driver harness/C10 (overlay build, tag verif): parses the renderer's own Render() text and action types, "
              "hard error on anything unrecognised; chain names mapped back to (kind, interface) one-to-one (collisions are C37's subject)"],
     assumptions=["interface names are non-empty and do not end in the dataplane's wildcard byte ('+' iptables, '*' nftables); "
                  "the v3 validator admits only [a-zA-Z0-9_.-]{1,15}",
-                 "EndpointChainName is injective on the names of one case (checked by the driver on every case)"],
+                 "EndpointChainName is injective on the names of one case (checked by the driver on every case)",
+                 "part 2: the kernel table is changed only by Felix's own transactions and starts absent; a transaction applies "
+                 "atomically or not at all; dispatch-map members are key -> goto <that key's chain> (value determined by key); "
+                 "RemoveMap is not modelled (Felix never removes the dispatch maps); every applyUpdates has a chain to rewrite, "
+                 "so every attempt runs a transaction; at most one AddOrReplaceMap per map between two Apply() calls"],
 )
 
 NFT_PKG = "./felix/nftables/"
@@ -114,6 +127,11 @@ MANIFEST = dict(
          "machine: for every name set and every probe interface, dispatch reaches exactly the probe's own endpoint chain "
          "iff it is in the set, otherwise the deny/default/return outcome the property names; plus a correspondence run "
          "that renders with the real iptables and nftables renderers and checks model == implementation structurally and "
-         "the spec oracle on the implementation's chains for generated probes.",
+         "the spec oracle on the implementation's chains for generated probes.  Part 2: an executable model of the nftables "
+         "verdict-map programming layer (maps.go Maps, table.go Apply/retry/table-recreate) with theorems that the table-recreate "
+         "path restores every desired dispatch map with exactly its members from any cached state (partial: the incremental path "
+         "is covered by correspondence + oracle only), composed with part 1 into 'known interface -> own chain' over the kernel's "
+         "map, and a correspondence run driving the real NftablesTable over the package's fake nft under injected transaction and "
+         "listing failures.",
     note="Trusted: Coq kernel; netfilter interface-match semantics as modelled in Nf.v; hand model tied to code by the correspondence run; Go driver.",
 )
